@@ -188,8 +188,12 @@ TEXTS = {
                 "annotate call per (non-NOT, OMIM/ORPHA) row in file order; comment, header and other-database lines contribute nothing; ids "
                 "rendered in decimal of any width parse back. BOTH LOADERS (C09_loaded_ontologies_satisfy_C01_C02_C03): whenever a load "
                 "succeeds on files whose hp.obo names only is_a targets with their own stanza, the ontology has exact ancestor caches, an "
-                "acyclic graph, annotation sets = inherited direct rows and information content = calculate(N, n). Equality with the Builder "
-                "and binary paths is decided per generated directory by spec_C09 on the "
+                "acyclic graph, annotation sets = inherited direct rows and information content = calculate(N, n); the ontology returned is what "
+                "the files say (C09_loaded_ontology_is_what_the_files_say: header version, one term per [Term] stanza, one direct link per "
+                "is_a line, per record exactly the direct terms its rows name); LOADER = BUILDER (C09_loader_equals_builder): a loaded "
+                "ontology and any Builder-built one with the same direct facts agree term by term on parents, children, ancestor caches, "
+                "annotation sets and information content. Equality with the Builder "
+                "and binary paths is additionally decided per generated directory by spec_C09 on the "
                 "crate's observations (both loaders, the Builder API and the binary format give the same dump, and that dump is exactly the "
                 "one the facts describe, with the C01-C03 statements on everything derived) and by diffing the Gallina transcription of "
                 "hp_obo.rs / parser.rs (run on the SAME file bytes) against the crate.",
